@@ -310,7 +310,7 @@ int main(int argc, char** argv) {
     vh::init(argc, argv, "C20");
     const bool thorough = vh::g.thorough();
     uint64_t idx = 0;
-    const int ncfg = thorough ? 2000 : 400;
+    const int ncfg = thorough ? 24000 : 1200;
     for (int t = 0; t < ncfg; ++t) {
         if (!vh::mine(idx++)) {
             continue;
@@ -339,7 +339,7 @@ int main(int argc, char** argv) {
     vh::sample("static curve: Compressor(T=-20,R=4,W=10) and Limiter with zero attack/release on input levels -100..+20 dB plus a 0.01 dB grid and 1e-7 dB steps around both knee edges, compared with the long-double characteristic (1e-9 dB)");
     //AGC
     {
-        const int cnt = thorough ? 1000 : 200;
+        const int cnt = thorough ? 12000 : 600;
         for (int t = 0; t < cnt; ++t) {
             if (!vh::mine(idx++)) {
                 continue;
